@@ -89,7 +89,20 @@ def full_check(ctx, cls, n, scripts, opts, spec, entry, arg, tol, faults, case, 
     names = traced_names(cls, spec)
     expected = {t: ([], []) for t in range(n)}
     strict = opts['errors'] == 'raise' and opts['catch_first_error']
+    ended_in_last_rep = set()
     for rep in range(repeat):
+        ended_in_last_rep = set()
+        if rep > 0:
+            # between repeated solves: replace whole series (a list assignment rebinds the underlying array), or continue on copies
+            how = case.get('interlude', 'none')
+            if how in ('list-assign', 'copy-then-list-assign'):
+                if how.startswith('copy'):
+                    A, B = A.copy(), B.copy()
+                for obj in (A, B):
+                    obj.X = [2.5 + i for i in range(n)]
+                    obj.A = tuple(float(v) + 1.0 for v in obj.A)
+            elif how == 'copy':
+                A, B = A.copy(), B.copy()
         lb0 = len(B.__dict__['v_log'])
         pb0 = len(B.__dict__.get('v_passvals', []))
         pre = {t: {x: float(B.__dict__['_' + x][t]) for x in ('A', 'B', 'X')} for t in range(n)}
@@ -156,6 +169,7 @@ def full_check(ctx, cls, n, scripts, opts, spec, entry, arg, tol, faults, case, 
                 after_ok = not (faults[1] == 'exc' or (faults[1] == 'warn' and strict))
                 if after_ok:
                     labels.append('end')
+                    ended_in_last_rep.add(t)
                     cols.append([final[t][x] for x in names])
                     if str(B.status[t]) == '.' and cols[-1] != cols[-2]:
                         ctx.violation('harness-self-check', 'end snapshot differs from last pass in the harness recording', case)
@@ -187,7 +201,7 @@ def full_check(ctx, cls, n, scripts, opts, spec, entry, arg, tol, faults, case, 
         if got.shape != want.shape or not np.array_equal(got, want, equal_nan=True):
             ctx.violation('trace-values', f'period {t}: trace values {got.tolist()} expected {want.tolist()} for labels {labels}', case)
             return
-        if str(A.status[t]) == '.' and labels[-1] == 'end':
+        if str(A.status[t]) == '.' and labels[-1] == 'end' and t in ended_in_last_rep:
             stored = [float(A[x][t]) for x in names]
             last = got[:, -1].tolist()
             if not all(a == b or (math.isnan(a) and math.isnan(b)) for a, b in zip(stored, last)):
@@ -221,8 +235,9 @@ def run_shard(ctx):
             faults = (rng.choice(['exc', 'warn']), None)
         elif r < 0.14:
             faults = (None, rng.choice(['exc', 'warn']))
-        repeat = 2 if rng.random() < 0.15 else 1
-        case = dict(n=n, cls=cls.__name__, trace=spec, entry=entry, arg=arg, opts=opts, faults=list(faults), repeat=repeat, twin=rng.choice(['same', 'plain']),
+        repeat = 2 if rng.random() < 0.3 else 1
+        interlude = rng.choice(['none', 'list-assign', 'copy', 'copy-then-list-assign'])
+        case = dict(n=n, cls=cls.__name__, trace=spec, entry=entry, arg=arg, opts=opts, faults=list(faults), repeat=repeat, interlude=interlude, twin=rng.choice(['same', 'plain']),
                     scripts={str(k): v for k, v in scripts.items()})
         ctx.evaluation(case, nontrivial=True, sample=case)
         ctx.seen('trace_specs', repr(spec))
